@@ -221,6 +221,20 @@ func (e *env) forEachOp(side string, base *session, full, thorough bool, f func(
 	bd := G.bounds()
 	m := len(G.Segs)
 	f(op{Name: "id"})
+	if e.Shape.Long {
+		// long sessions: every swap of two segments of the same kind and size, at every distance
+		if full {
+			for i := 0; i < m; i++ {
+				for j := i + 1; j < m; j++ {
+					a, b := G.Segs[i], G.Segs[j]
+					if a.Kind == b.Kind && (a.Kind == "len" || a.Kind == "pay") && a.End-a.Off == b.End-b.Off {
+						f(op{Name: "swap", A: i, B: j})
+					}
+				}
+			}
+		}
+		return
+	}
 	if full {
 		// truncation: every offset of the handshake and of the first chunks
 		// (quick: up to 4096 bytes; thorough: up to 8192), structural offsets +-1 beyond
